@@ -1,4 +1,5 @@
 import CheetahModel.Proofs.SemLawful
+import CheetahModel.Proofs.Tables
 /-!
 # C01 — Segment tracking is the ordered composition of its elements
 
@@ -71,5 +72,22 @@ example (k : Consts ℝ) (b : PBeam ℝ) :
       .seg [.elem (.drift 0.5), .elem .marker]]) b =
     Lat.seq (semP k) [.elem (.drift 1), .elem (.quad 0.2 3 0 0 0), .elem (.cavity 1 1e6 0 1.3e9),
       .seg [.elem (.drift 0.5), .elem .marker]] b := particle_beam k _ b
+
+/-- the `is_skippable` / `is_active` normal forms and the tracking-method dispatch of every element class of
+/repo (regenerated on every run) are the reviewed ones: energy-changing elements (Cavity: `not is_active`),
+non-linear ones (SpaceChargeKick, TransverseDeflectingCavity: `False`; Bmad-X tracked: `tracking_method == 'cheetah'`)
+and active diagnostics / apertures are never unconditionally skippable -/
+theorem skippability_table : Gen.predicates = Gen.pinnedPredicates := by decide +kernel
+
+theorem energy_changing_or_nonlinear_not_skippable :
+    ((Gen.findPred "Cavity").map (·.isSkippable)) = some "not self.is_active" ∧
+    ((Gen.findPred "SpaceChargeKick").map (·.isSkippable)) = some "False" ∧
+    ((Gen.findPred "TransverseDeflectingCavity").map (·.isSkippable)) = some "False" ∧
+    ((Gen.findPred "Drift").map (·.isSkippable)) = some "self.tracking_method == 'cheetah'" ∧
+    ((Gen.findPred "Quadrupole").map (·.isSkippable)) = some "self.tracking_method == 'cheetah'" ∧
+    ((Gen.findPred "Dipole").map (·.isSkippable)) = some "self.tracking_method == 'cheetah'" ∧
+    ((Gen.findPred "Aperture").map (·.isSkippable)) = some "not self.is_active" ∧
+    ((Gen.findPred "Screen").map (·.isSkippable)) = some "not self.is_active" ∧
+    ((Gen.findPred "BPM").map (·.isSkippable)) = some "not self.is_active" := by decide +kernel
 
 end C01
